@@ -676,6 +676,12 @@ func TestC12(t *testing.T) {
 	kinds := []string{"split:10", "split:255", "split:195", "hdr:0:-", "hdr:1:-", "hdr:0:" + hxs("Text/X-Case"), "hdr:1:" + hxs("Text/X-Case"), "hdr:0:" + hxs("text/x"), "hdr:1:" + hxs("text/x"), "hdr:1:" + hxs(lspType), "raw"}
 	if in, ok := replayInput(); ok {
 		var r struct{ Kind, Stream string }
+		if json.Unmarshal(in, &r) == nil && strings.HasPrefix(r.Kind, "server-") {
+			// found by the consumer-level sub-checks: they are deterministic, run them again
+			c12ServerAtEOF(res, rng)
+			c12ServerTruncated(res)
+			return
+		}
 		if json.Unmarshal(in, &r) == nil && r.Kind != "" {
 			s, _ := hexDecode(r.Stream)
 			cases = append(cases, tc{r.Kind, s})
